@@ -33,4 +33,12 @@ theorem scanTickLoop_eq : Nsq.Gen.Tick.scanTickLoop = ([
   "if float64(numDirty)/float64(num) > n.getOpts().QueueScanDirtyPercent",
   "branch goto loop"] : List String) := by decide
 
+/-- C04 (seeded C04-m7): on EVERY refresh tick the loop replaces its cached channel list by `n.channels()` (unconditionally — no `if` in front of it) and resizes the pool: a channel that replaces a deleted one within one refresh interval is scanned from the next refresh on. `tickLoop` takes the channel list as a parameter; this fact + the real-loop leg `scanloop` (corpus/C01/scan_loop_refresh.ops, also run by `props/C04.py`) tie that parameter to `n.channels()`. -/
+theorem scanRefreshBranch_eq : Nsq.Gen.Tick.scanRefreshBranch = ([
+  "assign channels := n.channels()",
+  "do n.resizePool(len(channels), workCh, responseCh, closeCh)",
+  "do <-refreshTicker.C",
+  "assign channels = n.channels()",
+  "do n.resizePool(len(channels), workCh, responseCh, closeCh)"] : List String) := by decide
+
 end Nsq.Tie.TickLoop
